@@ -58,6 +58,8 @@ type PathResult struct {
 	Assumptions  map[string]bool
 	Observations []string
 	Wanted       []string
+	Picks        int
+	Concretized  int
 }
 
 type CoverSample struct {
@@ -260,6 +262,9 @@ func (r *Run) branch(c *Term) bool {
 			ov = 0
 		}
 		r.res.NewWork = append(r.res.NewWork, r.traceCopy(Decision{V: ov}))
+		if r.eng.debugPicks {
+			r.res.Observations = append(r.res.Observations, "pick fork @ "+r.where())
+		}
 	}
 	if first {
 		r.trace = append(r.trace, Decision{V: 1})
@@ -277,6 +282,10 @@ func (r *Run) pick(kind string, n int) int {
 		return 0
 	}
 	k := r.pick0(kind, n)
+	r.res.Picks++
+	if r.eng.debugPicks {
+		r.res.Observations = append(r.res.Observations, fmt.Sprintf("pick %s n=%d @ %s", kind, n, r.where()))
+	}
 	r.picks = append(r.picks, k)
 	return k
 }
@@ -350,6 +359,7 @@ func (r *Run) concreteInt(t *Term, what string) int {
 		m2.Total = true
 		v, _ = m2.Eval(t)
 	}
+	r.res.Concretized++
 	sv := sext64(v, t.w)
 	// alternative: any other value
 	nx := append(append([]int64(nil), excl...), sv)
